@@ -126,6 +126,9 @@ def compare(replay, result, tables, expect_exit=True):
                 return "expected-error-response-got-%s" % o["k"]
             if o.get("code") != -32601:
                 return "error-code-not-MethodNotFound"
+        elif e["k"] == "errp":
+            if o["k"] != "err" or o["id"] != e["id"]:
+                return "expected-error-response-for-invalid-params-got-%s" % o["k"]
     return None
 
 
@@ -135,14 +138,14 @@ def last_consumed_kind(replay, obs):
     produced = 0
     for m in replay["hist"]:
         k = m["k"]
-        makes = 1 if k in ("open", "change", "semtok", "unkreq", "shutdown") else 0
+        makes = 1 if k in ("open", "change", "semtok", "unkreq", "badreq", "shutdown") else 0
         if produced + makes > n_out:
             return k
         produced += makes
         if makes == 0 and produced == n_out:
             # cannot tell whether this silent message or a later one killed the server: name the silent kind
             pass
-    silent = [m["k"] for m in replay["hist"] if m["k"] in ("cresp", "unknotif")]
+    silent = [m["k"] for m in replay["hist"] if m["k"] in ("cresp", "unknotif", "badnotif", "close")]
     return silent[0] if silent else "end"
 
 
